@@ -710,8 +710,10 @@ impl EliasFanoBuilder {
     /// Creates a builder for an [`EliasFano`] containing
     /// `n` numbers smaller than or equal to `u`.
     pub fn new(n: usize, u: usize) -> Self {
-        let l = if u >= n {
-            (u as f64 / n as f64).log2().floor() as usize
+        // For n = 0 the ratio is infinite, and for n = 1 and u close to
+        // usize::MAX the rounding of the conversion to f64 gives 64
+        let l = if n > 0 && u >= n {
+            ((u as f64 / n as f64).log2().floor() as usize).min(usize::BITS as usize - 1)
         } else {
             0
         };
@@ -871,8 +873,10 @@ impl EliasFanoConcurrentBuilder {
     /// Creates a concurrent builder for a sequence containing `n` nonnegative
     /// numbers smaller than or equal to `u`.
     pub fn new(n: usize, u: usize) -> Self {
-        let l = if u >= n {
-            (u as f64 / n as f64).log2().floor() as usize
+        // For n = 0 the ratio is infinite, and for n = 1 and u close to
+        // usize::MAX the rounding of the conversion to f64 gives 64
+        let l = if n > 0 && u >= n {
+            ((u as f64 / n as f64).log2().floor() as usize).min(usize::BITS as usize - 1)
         } else {
             0
         };
